@@ -26,7 +26,7 @@ EOF_OFF = 0x454F46
 
 
 def plan(tier: str, seed: int) -> list[dict]:
-    n, per, kmax = (16, 125, 4) if tier == "quick" else (64, 320, 8)
+    n, per, kmax = (32, 160, 4) if tier == "quick" else (64, 320, 8)
     return [{"seed": seed * 10_000 + i, "n": per, "kmax": kmax} for i in range(n)]
 
 
